@@ -64,6 +64,27 @@ def check_before_emit(ctx, rule: str = "C03.check-before-emit") -> None:
             fv = ctx.fv(f, dev)
             track = [c for c in fv.calls() if c.callee.kind == "func" and c.callee.func.short in ("Labware.add", "Labware.remove")]
             if not track:
+                # composite operations (transfer, ...): pipetting records must come from calls that also book the liquid; a
+                # record-only emitter (aspirate_well, dispense_well, ...) must be preceded by booking on every path
+                env = ctx.prog.local_types(f, dev)
+                if not any(c is lab or lab in ctx.prog.mro(c) for c in env.values()):
+                    continue
+                raw_emit, booked = [], []
+                for n in fv.cfg.nodes:
+                    effs = ctx.E.node_effects(fv, n)
+                    if any(e.kind == "VOLWRITE" for e in effs):
+                        booked.append(n.id)
+                    elif {e.arg for e in effs if e.kind == "EMIT"} & PIPETTING:
+                        raw_emit.append(n.id)
+                if raw_emit:
+                    early = ctx.E.must_precede(fv, booked, raw_emit) if booked else raw_emit
+                    c = f"{dev.name}.{name}/record-only-emission"
+                    if early:
+                        en = fv.cfg.nodes[early[0]]
+                        ctx.rep.refuted(rule, c, f"`{stmt_key(en.ast)[:70]}` writes a pipetting record on a path on which no volume was booked on a labware before: "
+                                        "the step is neither checked against the volume limits nor reflected in the tracked volumes", where=f.where(en.ast))
+                    else:
+                        ctx.rep.holds(rule, c, f"{len(raw_emit)} record-only emission(s), each preceded by a booking call", where=f.where())
                 continue
             # emission nodes: pipetting records produced by something that does not itself track
             emit_nodes = []
